@@ -47,6 +47,7 @@ func runC18(p *Prog, r *Report) {
 	c18CursorOwnership(p, r)
 	c18BufferAccess(p, r)
 	c18ReaderPassThrough(p, r)
+	c18SpillDiscipline(p, r)
 }
 
 // scannerRefill: the method of the scanner type that calls io.Reader.Read.
